@@ -281,6 +281,27 @@ if "Template loop detected" in r3:
          f"{{{{a|{{{{#if:x|{{{{a|y}}}}|n}}}}}}}} with expand_parserfns=False gives {r3!r}",
          {"page": "{{a|{{#if:x|{{a|y}}|n}}}}", "expand_parserfns": False}, "false-loop-detection")
 
+# names written with blanks or a subst: prefix are re-emitted as written when the call is not selected
+for txt in ("{{ a |x}}", "{{safesubst:a|x}}", "{{subst:b}}", "{{a<noinclude/>|x}}", "{{ b }}"):
+    ctx.start_page("Tt")
+    with quiet_stdout():
+        r = ctx.expand(txt, pre_expand=True, templates_to_expand=set())
+    evaluations += 1
+    if r != txt:
+        fail("core:Wtp.expand#unselected-call-is-emitted-with-the-same-name", f"{txt!r} -> {r!r}", {"page": txt, "pre_expand": True},
+             "name-changed")
+# the post hook sees the default expansion (with its automatic newline) and its own result is used verbatim
+ctx.add_page("Template:li", 10, "{{{1}}}")
+ctx.start_page("Tt")
+seen = []
+with quiet_stdout():
+    r6 = ctx.expand("x{{li|* item}}", post_template_fn=lambda n, ht, t: seen.append(t))
+    r7 = ctx.expand("x{{li|y}}", post_template_fn=lambda n, ht, t: "* verbatim")
+evaluations += 2
+if seen != ["\n* item"] or r6 != "x\n* item":
+    fail("core:Wtp.expand#post_template_fn-sees-default-expansion", f"hook saw {seen}, result {r6!r}", {"page": "x{{li|* item}}"})
+if r7 != "x* verbatim":
+    fail("core:Wtp.expand#post_template_fn-result-used-verbatim", f"gives {r7!r}", {"page": "x{{li|y}}"})
 with quiet_stdout():
     ctx.start_page("Tt")
     r4 = ctx.expand("x{{a}}", template_fn=lambda n, ht: "*item")
